@@ -102,7 +102,7 @@ class RefEngine(Engine):
             if isinstance(v, ConstV) and isinstance(v.obj, tuple):
                 v = lift(v.obj)
             ok = isinstance(v, (RefV, ParamV)) or (isinstance(v, TupV) and is_raw_shape(v) and prove_refinement(st, v, None))
-            if ok:
+            if ok and (s.lineno, n) not in getattr(self, 'inv_excluded', ()):
                 st.env[n] = RefV(None, 'loop-carried %s' % n)
                 keep.add(n)
         self.__dict__.setdefault('loop_inv', {})[s.lineno] = keep
@@ -114,7 +114,7 @@ class RefEngine(Engine):
                 v = lift(v.obj)
             ok = isinstance(v, (RefV, ParamV)) or (isinstance(v, TupV) and is_raw_shape(v) and prove_refinement(st, v, None))
             if not ok:
-                self.failed_args.append('L%s: loop-carried %s is not proved canonical at the end of the loop body' % (s.lineno, n))
+                self.inv_failed.add((s.lineno, n))     # candidate not inductive: withdrawn, analysis repeated
 
     # calls -------------------------------------------------------------------------------
     def on_unknown_call(self, px, fv, st, frame, guard, node, name):
@@ -287,7 +287,21 @@ def check_value(eng, st, v, prec0, want_bits, path=''):
 
 
 def analyze(rec, cand, recs, want_bits, max_paths=3000):
+    """candidate loop invariants ("the loop-carried raw mpf stays canonical") that are not preserved by the
+    loop body are withdrawn and the function is analysed again without them (at most 6 times)"""
+    excluded = set()
+    for _ in range(6):
+        ok, why, n, failed = _analyze_once(rec, cand, recs, want_bits, max_paths, excluded)
+        if not failed:
+            return ok, why, n
+        excluded |= failed
+    return ok, why, n
+
+
+def _analyze_once(rec, cand, recs, want_bits, max_paths, excluded):
     eng = RefEngine(cand, recs, rec.name)
+    eng.inv_excluded = excluded
+    eng.inv_failed = set()
     px = PathExec(eng)
     st = State()
     prec0 = z3.Int('prec0')
@@ -323,7 +337,7 @@ def analyze(rec, cand, recs, want_bits, max_paths=3000):
         for st2, sig_, val in px.block(rec.node.body, st, frame):
             n += 1
             if n > max_paths:
-                return False, ['path budget exceeded'], n
+                return False, ['path budget exceeded'], n, set()
             if sig_ == RAISE:
                 continue
             if sig_ == NEXT:
@@ -335,13 +349,13 @@ def analyze(rec, cand, recs, want_bits, max_paths=3000):
                 if msg not in reasons:
                     reasons.append(msg)
     except RecursionError:
-        return False, ['recursion limit'], n
+        return False, ['recursion limit'], n, set()
     for fa in eng.failed_args:
         if fa not in reasons:
             reasons.append(fa)
     if nret == 0:
-        return False, ['no returning path'], n
-    return not reasons, reasons, n
+        return False, ['no returning path'], n, eng.inv_failed
+    return not reasons, reasons, n, eng.inv_failed
 
 
 def uses_as_raw(fn, name):
